@@ -15,6 +15,10 @@ stores the evaluated value as is, untyped literals are lowered to DINT).  Proved
   (`c03_for_control_keeps_tag`);
 * inside the decidable guard `Strict`, `StoreWT` holds at every cycle boundary of every run —
   after completed and after faulted cycles (`c03_preserved_partial`, `c03_every_cycle_partial`).
+
+Stage S3: the elements of an array and the fields of a struct are slots of the store like any
+variable (`elemName`, `fldName`; `Program.ctx` declares them with the element / field type), so
+`StoreWT` covers them, and it also states that the shapes (bounds, field names) are the declared ones.
 -/
 namespace TrustVerif.StCore
 
@@ -59,21 +63,12 @@ theorem c03_every_cycle_partial (p : Program) (hS : Strict p = true) (ins : Inpu
   exact (run_inv p hS ins hins p.initStore (init_WT p hT) fuel n).1
 
 /-- The executable form of the invariant used by the oracle implies the invariant. -/
-theorem c03_envWT_sound (Γ : Ctx) (σ : Store) (h : envWT Γ σ.vars = true) : StoreWT Γ σ := by
+theorem c03_envWT_sound (Γ : Ctx) (σ : Store) (h : envWT Γ σ.vars = true) (ha : σ.aggs = Γ.aggs)
+    (hc : Spec.aggOK Γ = true) : StoreWT Γ σ := by
+  refine ⟨?_, ha, hc⟩
   intro x t hx
   unfold envWT at h
-  have hm : (x, t) ∈ Γ := by
-    induction Γ with
-    | nil => simp [List.lookup] at hx
-    | cons q rest ih =>
-      obtain ⟨y, ty⟩ := q
-      simp only [List.lookup] at hx
-      by_cases hxy : x = y
-      · subst hxy; simp at hx; subst hx; simp
-      · have : (x == y) = false := by simp [hxy]
-        simp only [this] at hx
-        simp only [List.all_cons, Bool.and_eq_true] at h
-        exact List.mem_cons_of_mem _ (ih h.2 hx)
+  have hm : (x, t) ∈ Γ.vars := mem_of_lookup hx
   have := (List.all_eq_true.mp h) (x, t) hm
   simp only at this
   cases hl : lookup x σ.vars with
@@ -107,9 +102,10 @@ theorem c03_counterexample_out_of_range :
     (Wit.firstCycle Wit.driftLiteralRange).2 = [("s", .i .dint 1000)] ∧
     IKind.sint.inRange 1000 = false := by decide +kernel
 
-/-- **Counterexample (BOOL in an integer variable through the unchecked ELSE branch of CASE).** -/
-theorem c03_counterexample_case_else :
-    Wit.caseElseStore.accepted = true ∧ Wit.caseElseStore.acceptedFixed = false ∧
+/-- **Regression fact (ELSE branch of CASE, fixed in 22a8b8f).**  `d := TRUE` with `d : DINT`
+inside `CASE … ELSE` is now rejected; before the fix it was accepted and left `Bool` in `d`. -/
+theorem c03_case_else_now_rejected :
+    Wit.caseElseStore.accepted = false ∧ Wit.caseElseStore.acceptedBefore22a8b8f = true ∧
     (Wit.firstCycle Wit.caseElseStore).2 = [("d", .b true)] := by decide +kernel
 
 /-- The modelled repair of the write path (coerce to the declared type, `Overflow` when it does
@@ -121,5 +117,13 @@ theorem c03_repair_restores_invariant :
       (cycle { coerce := some Wit.driftWidening.ctx } Wit.driftWidening 100 (Wit.init Wit.driftWidening)).1.store.vars = true ∧
     (cycle { coerce := some Wit.driftLiteralRange.ctx } Wit.driftLiteralRange 100 (Wit.init Wit.driftLiteralRange)).2
       = some (.fault .Overflow .narrow) := by decide +kernel
+
+/-- Stage S3, non-vacuity: after the first cycle of the S3 sample (inside the guard) every element
+of `ar` carries the tag INT and the fields of `sv` the tags DINT / BOOL. -/
+example : Strict Wit.s3Sample = true ∧
+    envWT Wit.s3Sample.ctx (Wit.firstCycle Wit.s3Sample).2 = true ∧
+    lookup "ar[3]" (Wit.firstCycle Wit.s3Sample).2 = some (.i .int 6) ∧
+    lookup "sv.f1" (Wit.firstCycle Wit.s3Sample).2 = some (.b true) := by
+  decide +kernel
 
 end TrustVerif.StCore
